@@ -4,7 +4,7 @@
     every cell is [val] of the entities at its coordinates, every label array present is the image of its axis'
     entities under the labelling [lbl] of its field; [no_loss s s']: no label array present in [s] is missing in [s'].
     [val] and [lbl] are arbitrary (so duplicated labels are covered), the entity type is arbitrary. *)
-From PV Require Import Lib.Common Model.C03_LMat Proofs.C03_LMat.
+From PV Require Import Lib.Common Model.C03_LMat Proofs.C03_LMat Gen.C03_Dispatch Gen.C03_MetaReset Proofs.C03_Tables.
 Local Open Scope Z_scope.
 
 (** every class descriptor of the model is well formed (axes in range, kinds do not share array axes) *)
@@ -133,6 +133,25 @@ Print Assumptions C03_generic_eq_specific.
 Theorem C03_dispatch_tables : forallb dispatch_table_ok all_classes = true.
 Proof. exact dispatch_tables_ok. Qed.
 Print Assumptions C03_dispatch_tables.
+
+(** the table regenerated from the current sources (every generic adjoin/delete/insert/select/concat/append/remove/
+    incorp/lexsort/reorder/sort/group/ungroup/is_grouped of the 13 classes, resolved through the MRO): the non-raising
+    branches are, in axis order, exactly the kinds for which the model performs the operation, each calling
+    <method>_<kind> of the axis attribute it tests; every class x method the model performs is present *)
+Theorem C03_dispatch_rows_ok : forallb row_ok dispatch_rows && coverage_ok = true.
+Proof. exact dispatch_rows_check. Qed.
+Print Assumptions C03_dispatch_rows_ok.
+
+(** the table regenerated from the current sources: every in-place layout-changing method (append/remove/incorp/
+    reorder/sort/ungroup _taxa/_vrnt) of every class assigns None to all four group-metadata fields; all class x
+    grouped-kind x method combinations of the model are present.  The model resets the same four fields. *)
+Theorem C03_metareset_rows_ok : forallb mrow_ok metareset_rows && mcoverage_ok = true.
+Proof. exact metareset_rows_check. Qed.
+Print Assumptions C03_metareset_rows_ok.
+Theorem C03_model_resets : forall (s : st) (k : nat) (l : list (option larr)), (k < length (axes s))%nat ->
+  is_grouped (ax_of {| shape := shape s; data := data s; axes := set_axes s k l |} k) = false.
+Proof. exact model_resets. Qed.
+Print Assumptions C03_model_resets.
 
 (** mutating = non-mutating counterpart (classes that do not drop labels) *)
 Theorem C03_delete_then_remove : forall c s k o s', drop_other c = false -> op_delete c s k o = OK s' -> op_remove c s k o = OK s'.
